@@ -21,7 +21,7 @@ func init() {
 		Assume: []string{"a kill between requests (the property's wording), not inside one", "timestamps and concrete generation numbers are not compared across stores"},
 		Run:    runC09,
 	})
-	expectedProbes["C09"] = []string{"gcs.restart", "c09.planted_file_served", "c09.planted_file_patched_copied_deleted", "c09.differential_equal", "c09.differential_listing", "c09.real_http_transport"}
+	expectedProbes["C09"] = []string{"gcs.restart", "c09.bucket_deleted", "c09.planted_file_served", "c09.planted_file_patched_copied_deleted", "c09.differential_equal", "c09.differential_listing", "c09.real_http_transport"}
 }
 
 func c09Gen(r *Run, g *gGen) func(d *draws, m *gModel, i int) gOp {
@@ -30,7 +30,15 @@ func c09Gen(r *Run, g *gGen) func(d *draws, m *gModel, i int) gOp {
 		b := gBuckets[d.w(4, 1)]
 		name := existingName(d, m, b, names)
 		cur := m.obj(b, name)
-		switch d.w(6, 3, 2, 2, 2, 2, 2) {
+		switch d.w(6, 3, 2, 2, 2, 2, 2, 1) {
+		case 7:
+			// buckets come and go too (a deleted bucket takes its objects and directories along;
+			// uploads create it again)
+			if d.n(3) == 0 {
+				return gOp{Kind: "GetBucket", Bucket: b}
+			}
+			r.Probe("c09.bucket_deleted")
+			return gOp{Kind: "DeleteBucket", Bucket: b}
 		case 0:
 			return g.upload(d, b, name, g.conds(d, cur, false))
 		case 1:
